@@ -22,9 +22,9 @@ type c05claim struct {
 }
 
 type c05cfg struct {
-	name   string
-	owner  *c05claim // a third service deployed beforehand (may be nil)
-	racers []c05claim
+	name     string
+	owner    *c05claim // a third service deployed beforehand (may be nil)
+	racers   []c05claim
 	redeploy bool // racer 0 is a redeploy of an existing service moving onto the contested pair
 }
 
@@ -430,7 +430,7 @@ func c05HSpec(tier string) *HSpec {
 			}
 			return alpha
 		},
-		Obs: ObsSpec{Hosts: []string{"a.example.com", "b.example.com:8080", "x.example.com", "other.org"}, Paths: []string{"/", "/api", "/api/x", "/apiary"}, Cookies: []string{""}, TLS: []bool{false}},
+		Obs:     ObsSpec{Hosts: []string{"a.example.com", "b.example.com:8080", "x.example.com", "other.org"}, Paths: []string{"/", "/api", "/api/x", "/apiary"}, Cookies: []string{""}, TLS: []bool{false}},
 		Clauses: map[string]bool{"routing": true, "target-set": true, "list": true, "gate": true, "tls-policy": true},
 	}
 }
